@@ -132,6 +132,11 @@ def signature(pid, what, source, case, events, i=0, opts_tag=""):
         tag = ";".join("%s@%s|%s" % (c["kind"], c["prev"], c["next"]) for c in rd["slot_ctx"])
         if opts_tag:
             tag += ";" + opts_tag
+    if source == "sortrequires" and meta.get("prog") is not None:
+        # statement kinds and deviations of the generated sequence (as for the sorting verdicts), sorting on / off
+        devs = sorted(set("%s:%s" % (d["t"], (d["x"].split(":")[0] + "/" + d.get("y", "").split(":")[0]) if d["t"] == "range" else d["x"]) for d in meta.get("devs", [])))
+        kinds = "".join(sorted(set(i_["k"] for i_ in meta.get("prog", []))))
+        tag = (tag + ";" if tag else "") + "items=%s;devs=%s;sort=%s" % (kinds, ",".join(devs), "on" if (f.get("cfg", {}).get("sort_requires") or {}).get("enabled") else "off")
     if what in ("reparse",):
         return "%s|reparse|%s|%s" % (source, tag, strip_pos(r.get("msg", "")))
     if what in ("meaning", "grouping"):
